@@ -120,6 +120,9 @@ func (r *balanceRunner) setupFlags(c *cobra.Command) {
 }
 
 func (r balanceRunner) execute(cmd *cobra.Command, args []string) error {
+	if r.digits > flags.MaxDigits {
+		return fmt.Errorf("--digits: %d exceeds the maximum of %d", r.digits, flags.MaxDigits)
+	}
 	reg := registry.New()
 	valuation, err := r.valuation.Value(reg)
 	if err != nil {
